@@ -182,7 +182,8 @@ theorem quadRot_det (n : V3) (a b : Rat) :
 theorem smul_zero_add (m : M3) : M3.one.add (M3.smul 0 m) = M3.one := by
   apply M3.ext <;> m3_simp <;> ring
 
-theorem smallAngle_pos : 0 < smallAngle := by unfold smallAngle; positivity
+theorem smallAngle_pos : 0 < smallAngle := by
+  unfold smallAngle Gen.C08.smallAngle; positivity
 
 theorem threshold_id (x th : Rat) (h1 : -th ≤ x) (h2 : x ≤ th) : threshold x th = x := by
   unfold threshold
